@@ -1,5 +1,34 @@
-import Driver.Proto
+import Driver.Framing
 namespace DriverC03
-/-- stub: property not yet claimed -/
-def handle (_case _obs : List String) : String × String := ("unclaimed", "fail:unclaimed")
+open Proto Framing DriverFraming
+
+def afterFirstT : List String → Option (List String)
+  | [] => none
+  | t :: r => if tokKind t = 't' then some r else afterFirstT r
+
+/-- C03 verdict on an encoder body polled to exhaustion (and beyond): the data is a
+concatenation of well-formed frames, flag 1 exactly when a compressed payload (decompressible by
+the reference decompressor, right magic number) is carried, server: exactly one trailers frame
+with nothing after it, client: no trailers. -/
+def handle (case obs : List String) : String × String :=
+  match model case, parseEncCase case with
+  | some m, some c =>
+    let bytes := (obsData obs).flatten
+    let (frs, left) := Spec.Framing.split bytes
+    let eff := c.cfg.comp
+    let flagsOk := frs.all (fun fp =>
+      match eff with
+      | some e => fp.1 == 1 && magicOk e fp.2 && (payloadMsg c.tab fp).isSome
+      | none => fp.1 == 0)
+    let payloadsAreMessages := (frs.filterMap (payloadMsg c.tab)).all (fun p => (itemsOf c.evs).contains p)
+    let nT := (obs.filter (fun t => tokKind t = 't')).length
+    let trailersOk := if c.cfg.server
+      then nT == 1 && (match afterFirstT obs with | some r => r.all (fun t => t = "n") | none => false)
+      else nT == 0
+    (m, verdict [("no-panic", !obs.any isBad),
+                 ("body-is-whole-frames", left.isEmpty),
+                 ("flag-matches-compression", flagsOk),
+                 ("payloads-are-serialized-messages", payloadsAreMessages),
+                 ("one-trailers-block-nothing-after", trailersOk)])
+  | _, _ => bad
 end DriverC03
